@@ -28,6 +28,10 @@ def hx(s):
     return s.encode('utf-8').hex() if s else '-'
 
 
+# every op is a call of a function whose result must not depend on earlier calls: also evaluated in other orders
+PURE_OPS = True
+
+
 def cases(ctx):
     ops = []
     for c in range(52):
